@@ -47,6 +47,72 @@ CHECKS.update({
     ),
 })
 
+CHECKS.update({
+    "C06": dict(
+        engine="PySym + DeCy",
+        technique="bounded symbolic execution (PySym/z3) of ReadSetReader.read and everything below it - variants.py, vcf.py normalisation, the DeCy translations of _variants.pyx and align.pyx - with symbolic DNA (reference, inserted and substituted bases); the read and its canonical CIGAR are derived from (reference, variants, carried alleles); every path replayed through the real variants.py, the rebuilt compiled _variants/align/core and real pysam.AlignedSegment objects",
+        text="Exhaustive within the bounds: reference <= 7 (thorough 10) bases, one or two variants of every kind (SNV, MNP, 1-2 base insertion/deletion, padded records, multi-allelic), clips, =/X, N skips, mate pairs in all orientations, overhang 0-2 (3). Clauses: never the other allele; nothing for non-overlapped variants; allele found with a reference; found without one for SNVs and unshiftable indels.",
+        note="Trusted: duck-typed alignment + in-memory reader (validated by the replay through real AlignedSegments), core model, SymStr, DeCy. Seven genuine defects are recorded as known findings (not repaired: each needs a design decision in allele detection). Outside: default overhang 10, affine/k-mer re-alignment, supplementary alignments, P operator.",
+        design_ref="DESIGN.md §4 C06, §9",
+    ),
+    "C07": dict(
+        engine="PySym + DeCy",
+        technique="bounded symbolic execution (PySym/z3) of the DeCy translation of readselect.pyx (with priorityqueue.pyx, coverage.py, graph.py) with symbolic cap, qualities, source ids and unordered_set iteration order; plus a z3 lemma over unbounded integers for the per-member cap expression extracted from phase.py's AST; every path replayed on the rebuilt compiled readselect/core",
+        text="All read/variant incidence structures with <= 3 (thorough 4) reads over <= 4 variants: subset, span coverage <= k, maximality, independence of the C++ unordered_set order; arithmetic lemma: family_size * max(1, k // family_size) <= k for all 1 <= family_size <= k, and the 23 validation bound.",
+        note="Trusted: DeCy shims, core model (validated by the repo's readselect tests on the translation and by per-path replay on the compiled module). Outside: more than 4 reads / 4 variants.",
+        design_ref="DESIGN.md §4 C07, §9",
+    ),
+    "C08": dict(
+        engine="PySym",
+        technique="bounded symbolic execution (PySym/z3) of determine_genotype and GenotypeVcfWriter.write_genotypes with likelihoods on a symbolic dyadic grid (every order and tie pattern reachable, exact as binary floats); replay on the compiled core",
+        text="Decision layer only: GT is genotype i iff l_i is the strict maximum above the threshold; GL lists l_0..l_2 in index order; GQ sums exactly the other genotypes. The first sentence of the property (GL equals the HMM posterior) is NOT claimed: GenotypeDPTable computes in x87 long double, no encoding within reach.",
+        note="Trusted: core model Genotype/PhredGenotypeLikelihoods, opaque log10 stub, stand-in record objects. Outside: HMM numerics, log10/round values, htslib.",
+        design_ref="DESIGN.md §4 C08, §9",
+    ),
+    "C11": dict(
+        engine="PySym",
+        technique="bounded symbolic execution (PySym/z3) of compare(), compare_pair, compare_block, compute_switch_flips, switch_encoding, hamming, BedCreator, compare_multiway on VariantTables built from solver-chosen haplotype bits, phase-set structure and symbolic positions; oracle from the definitions; every path replayed on the real module with the compiled Genotype",
+        text="Diploid, 2-3 files: all haplotype-string pairs of one block of <= 7 (thorough 9) variants, all <= 2-set structures incl. unphased/absent variants for <= 3-5 variants, multi-allelic hets (unambiguous clauses only), multiway with 3 files. Ploidy > 2 is not claimed (double-scored C++ DP).",
+        note="Trusted: PySym, core model Genotype, the oracle. run_compare's file handling is covered for hash-seed independence by C16 only.",
+        design_ref="DESIGN.md §4 C11, §9",
+    ),
+    "C12": dict(
+        engine="PySym",
+        technique="bounded symbolic execution (PySym/z3) of run_stats plus VcfReader's record-to-table code over a read-only pysam model with symbolic positions; every path replayed end to end (VCF text, real pysam, real run_stats with --tsv/--block-list/--gtf)",
+        text="<= 3 (4) records with every call class (hom, het, phased in <= 3 sets, missing, partial) and SNV/indel, <= 6 (7) het records with every interleaving/nesting of <= 3 phase sets, <= 2 chromosomes, PS and HP, --only-snvs, --chromosome.",
+        note="Trusted: vcfread_model (re-validated by every replay), print/open capture. Outside: multi-sample files, --chr-lengths, NG50/median values (compared symbolic vs real only).",
+        design_ref="DESIGN.md §4 C12, §9",
+    ),
+    "C14": dict(
+        engine="PySym",
+        technique="bounded symbolic execution (PySym/z3) of whatshap/cli/split.py (run_split and helpers) over an in-memory file model, option flags symbolic, structure solver-chosen; every path replayed through the real run_split on materialised FASTQ/BAM and list files",
+        text="<= 3 (4) reads with names from a pool of 3 (all duplicate patterns), <= 4 list lines (2-/4-column, header or not), ploidy 2-3, every option combination incl. --only-largest-block and the histogram.",
+        note="Trusted: io_model (validated on every path by the replay). One known finding stays (zero-length FASTQ read rewritten in FASTA form by pysam's str()). Outside: gzip/htslib byte level.",
+        design_ref="DESIGN.md §4 C14, §9",
+    ),
+    "C15": dict(
+        engine="PySym",
+        technique="bounded symbolic execution (PySym/z3) of force_genotypes (likelihoods arbitrary extended reals), aggregate_results, compute_cut_positions and phase_single_individual with the heuristic stages replaced by arbitrary outputs of the right shape; replay on the real modules, plus a concrete scenario on the real scipy",
+        text="Ploidy 2-4, <= 3 alleles, <= 4 positions: allele multiset after forcing equals the genotype; phase sets are intervals named by their first position. Cluster editing, threading and reordering heuristics (double-scored C++/ILP) are NOT claimed.",
+        note="Trusted: binom/log stubs, core model Read/ReadSet. The VCF writing stage is claimed by C04.",
+        design_ref="DESIGN.md §4 C15, §9",
+    ),
+    "C16": dict(
+        engine="PySym",
+        technique="the hash seed as a symbolic variable: inside the repo modules set/frozenset iteration over hash-randomised elements yields a solver-chosen permutation (PySym/z3); run_compare and run_polyphase are executed under stubs twice (canonical order / solver's order) and everything they write must be identical; a difference is confirmed by running the real CLI under several PYTHONHASHSEED values",
+        text="compare: 2-3 single-sample VCFs, all naming patterns, --ignore-sample-name, all four output files + stdout; polyphase: 2-3 samples with solver-chosen het sets. Worker scheduling (--threads) and htslib compression threads are NOT claimed: no interleaving of OS processes/threads is visible to a symbolic executor of the source.",
+        note="Trusted: nondet set shim (over-approximates hash orders; reports need a real reproduction), stubs listed in the evidence. Other subcommands (phase, haplotag, genotype, stats, unphase, split) are not encoded for this property.",
+        design_ref="DESIGN.md §4 C16, §9",
+    ),
+    "C19": dict(
+        engine="LLSym + DeCy/PySym",
+        technique="(a) LLSym symbolic run of the real Genotype class (src/genotype.cpp, binomial.cpp from LLVM IR) with value-set allele inputs, z3 decides canonical index, index<->alleles round trip, restore, equality/order vs index; (b) DeCy + PySym of align.edit_distance against a symbolic full-matrix Levenshtein, banded contract for every band; replay on native twin / rebuilt extension",
+        text="(a) ploidy/alleles (1,4) (2,3) (2,5) (3,3) (4,2), pairs (1,4) (2,3) (3,2) [thorough to (6,2), (3,4)]; (b) all string pairs of length <= 5 (6) and all bands.",
+        note="Trusted: as C01 / C18. Outside: ploidy*alleles beyond the listed shapes (limits 14/16 are not reached), longer strings, affine-gap and k-mer alignment.",
+        design_ref="DESIGN.md §4 C19, §9",
+    ),
+})
+
 NOT_APPLICABLE = {}
 
 
